@@ -184,7 +184,9 @@ def outcome_class(out):
     kind, v = out
     if kind == "ok":
         if isinstance(v, ast._Node):
-            return "node"
+            from .decode import malformed
+            bad = malformed(v)
+            return "node" if not bad else "non-node:malformed AST (%s)" % bad
         return "non-node:" + type(v).__name__
     if isinstance(v, exceptions.ODataException):
         return "lib:" + type(v).__name__
